@@ -72,6 +72,8 @@ TEvalG0  == IsEv("EvalG") /\ ~Ev.exc /\ EvalG0(Ev.pt, Ev.pg) /\ Consume /\ Note(
 TScaler  == IsEv("Call") /\ ~Ev.exc /\ Ev.who = "scaler" /\ CallScaler /\ Consume
             /\ Note(Flag("C17_ScalerArgs", Ev.argsOk))
 TNoScaler == ~(IsEv("Call") /\ Ev.who = "scaler") /\ SkipScaler /\ Silent /\ Note({})
+TScalerLate == IsEv("Call") /\ ~Ev.exc /\ Ev.who = "scaler" /\ CallScalerLate /\ Consume
+               /\ Note({"C17_ScalerBeforeUpdate"} \cup Flag("C17_ScalerArgs", Ev.argsOk))
 TUpd0    == IsEv("Call") /\ ~Ev.exc /\ Ev.who = "upd" /\ CallUpd0 /\ Consume /\ Note({})
 TNoUpd0  == ~(IsEv("Call") /\ Ev.who = "upd") /\ SkipUpd0 /\ Silent /\ Note({})
 
@@ -83,7 +85,8 @@ MemClauses(e) ==
      \cup Flag("C10_CurvIffAccepted", acc = e.curv)
      \cup Flag("C10_AllCurv", e.allCurv)
      \cup Flag("C10_CandIsX", e.cand = x)
-TMem0First   == ~IsEv("MemUpd") /\ Mem0First /\ Silent /\ Note({})
+LateScalerNext == IsEv("Call") /\ Ev.who = "scaler"      \* (consumed by TScalerLate first: keeps the silent steps deterministic)
+TMem0First   == ~IsEv("MemUpd") /\ ~LateScalerNext /\ Mem0First /\ Silent /\ Note({})
 TMem0Restart == IsEv("MemUpd") /\ Mem0Restart(Ev.ids # Ev.before, Ev.ids) /\ Consume
                 /\ Note(MemClauses(Ev) \ {"C10_BeforeIsMem"})
 TGuardEnter == (IsEv("LSBegin") \/ IsEv("Cauchy") \/ IsEv("Subspace")) /\ GuardEnter /\ Silent /\ Note({})
@@ -139,7 +142,7 @@ TFilter0 == IsEv("Filter") /\ Filter0(Ev.ids) /\ Consume
            /\ Note(Flag("C13_FilterKeepsNewest", Ev.ids # <<>> /\ Last(Ev.ids) = Last(mem))
                    \cup Flag("C13_FilterSubseq", IsSubSeq(Ev.ids, mem))
                    \cup Flag("C13_FilterCurv", Ev.allCurv))
-TNoFilter0 == pc = "Filter0" /\ ~IsEv("Filter") /\ Filter0(mem) /\ Silent /\ Note({})
+TNoFilter0 == pc = "Filter0" /\ ~IsEv("Filter") /\ ~(IsEv("Call") /\ Ev.who = "scaler") /\ Filter0(mem) /\ Silent /\ Note({})
 TMemUpdate == IsEv("MemUpd") /\ MemUpdate(Ev.ids # Ev.before, Ev.ids) /\ Consume
               /\ Note(MemClauses(Ev))
 TCallback == IsEv("Callback") /\ ~Ev.exc /\ Callback(StateRec("cb", ObsOf(Ev, Ev.frozen)), Ev.ret) /\ Consume
@@ -162,7 +165,7 @@ TCrashLS == /\ IsEv("LSEnd") /\ Ev.ret = "exc" /\ fault = "none"
             /\ UNCHANGED vars /\ Consume /\ Note({})
 
 Main == \/ TCrash \/ TCrashLS \/ TStart \/ TRestart \/ TRaise \/ TRaiseLS \/ TEvalF0 \/ TCallStop \/ TLateCallStop \/ TSkipStop \/ TEarly
-        \/ TNoEarly \/ TStencil \/ TEvalG0 \/ TScaler \/ TNoScaler \/ TUpd0 \/ TNoUpd0 \/ TFilter0 \/ TNoFilter0
+        \/ TNoEarly \/ TStencil \/ TEvalG0 \/ TScaler \/ TNoScaler \/ TScalerLate \/ TUpd0 \/ TNoUpd0 \/ TFilter0 \/ TNoFilter0
         \/ TMem0First \/ TMem0Restart \/ TGuardEnter \/ TGuardExit \/ TCauchy \/ TSubspace \/ TLSBegin \/ TTrialF \/ TTrialG
         \/ TLSNone \/ TLSStep \/ TAccFEval \/ TAccFHit \/ TAccFSkip \/ TAccGEval \/ TAccGHit
         \/ TAccGSkip \/ TUpd \/ TStopTarget \/ TStopFtol \/ TNoStop \/ TFilter \/ TNoFilter \/ TMemUpdate
